@@ -29,14 +29,14 @@ and ran the property's quick check against the patched worktree. `seeded/<id>/` 
 patch.diff, the demonstration (`*_test.go.txt`), the author's notes and meta.json.
 "history" says when a change was first missed and what was strengthened.
 
-Four rounds were run. Round 1 (ids -A/-B, all 41 properties): authors had only the property
+Five rounds were run. Round 1 (ids -A/-B, all 41 properties): authors had only the property
 text. Round 2 (-C/-D, all 41 properties) round 3 (-E/-F, the 20 properties whose checks had
 needed strengthening most) and round 4 (-G/-H, 12 of the remaining properties) additionally listed the kinds of change the earlier rounds had
 produced and asked for different functions, mechanisms and triggers. A change that the check
 missed was never discarded: the check was strengthened for the *scenario class* (not the
 patch), validated against a differently written break of the same class in a scratch worktree,
 re-run for silence on /repo at seeds 1, 2, 3, 7, 42, and only then re-evaluated against the
-seed. Misses at first evaluation: round 1 27 of 82, round 2 40 of 82, round 3 26 of 40, round 4 10 of 24 —
+seed. Misses at first evaluation: round 1 27 of 82, round 2 40 of 82, round 3 26 of 40, round 4 10 of 24, round 5 (-E for C26, C30, C31, C32, continuation session) 0 of 4 —
 later rounds were harder because their authors steered towards entry points, configurations
 and multi-step histories the earlier ones had not used. What the strengthening added, by theme:
 
